@@ -22,6 +22,7 @@ func init() {
 		Controls: []Control{
 			{Name: "dedup-key-without-identifier", File: "route/bgp_path_cache.go", Old: "\tif x, ok := bgpc.cache[*p]; ok {\n\t\tbgpc.cacheMu.Unlock()\n\t\treturn x\n\t}\n\n\tbgpc.cache[*p] = p\n", New: "\tk := *p\n\tk.BGPIdentifier = 0\n\tif x, ok := bgpc.cache[k]; ok {\n\t\tbgpc.cacheMu.Unlock()\n\t\treturn x\n\t}\n\n\tbgpc.cache[k] = p\n", Expect: "dedup-keeps-decision-keys"},
 			{Name: "as-sets-counted-once-per-path", File: "protocols/bgp/types/as_path.go", Old: "\t\tif p.Type == ASSet {\n\t\t\tret++\n\t\t\tcontinue\n", New: "\t\tif p.Type == ASSet {\n\t\t\tret |= 1 << 15\n\t\t\tcontinue\n", Expect: "as-set-counts-once-per-segment"},
+			{Name: "refactor-as-set-adds-one", Silent: true, File: "protocols/bgp/types/as_path.go", Old: "\t\tif p.Type == ASSet {\n\t\t\tret++\n", New: "\t\tif p.Type == ASSet {\n\t\t\tret += 1\n"},
 			{Name: "identity-ignores-the-peer-address", File: "route/bgp_path.go", Old: "\tif b.Source.Compare(c.Source) != 0 {\n\t\treturn false\n\t}\n\n\tif b.LocalPref != c.LocalPref || b.MED", New: "\tif b.LocalPref != c.LocalPref || b.MED", Expect: "identity-refines-the-decision"},
 			{Name: "replace-reranks-only-when-best-touched", File: "routingtable/locRIB/loc_rib.go", Old: "\tr.PathSelection()\n\ta.propagateChanges(oldRoute, r)\n}\n", New: "\tif oldRoute.BestPath().Equal(oldPath) {\n\t\tr.PathSelection()\n\t}\n\ta.propagateChanges(oldRoute, r)\n}\n", Expect: "loc-rib-reranks-after-every-change"},
 			{Name: "med-direction-flipped", File: "route/bgp_path.go", Old: "\tif c.BGPPathA.MED > b.BGPPathA.MED {\n\t\treturn 1\n\t}\n\n\tif c.BGPPathA.MED < b.BGPPathA.MED {\n\t\treturn -1\n\t}", New: "\tif c.BGPPathA.MED > b.BGPPathA.MED {\n\t\treturn -1\n\t}\n\n\tif c.BGPPathA.MED < b.BGPPathA.MED {\n\t\treturn 1\n\t}", Expect: "rfc-decision-step"},
